@@ -101,23 +101,25 @@ structure RawSym where
 
 def fld (e : Enc) (rec : Bytes) (off w : Nat) : Nat := rdField e (slice rec off w)
 
-/-- read the members of `*pSym` (`rec` = the `sizeof(T)` bytes at `pSym`) -/
+/-- read the members of `*pSym` (`rec` = the `sizeof(T)` bytes at `pSym`): the field after `convertor`
+    (`rdField`) goes through the *generated* conversion to the type of the out-parameter / argument
+    (`symNN_get_value` … : zero extension of the 32-bit members of `Elf32_Sym`) -/
 def decodeRaw (c : Cfg) (rec : Bytes) : RawSym :=
   match c.cls with
   | .c32 =>
-    { name := BitVec.ofNat 32 (fld c.enc rec Elf32_Sym.st_name_off Elf32_Sym.st_name_w)
-      value := BitVec.ofNat 64 (fld c.enc rec Elf32_Sym.st_value_off Elf32_Sym.st_value_w)
-      size := BitVec.ofNat 64 (fld c.enc rec Elf32_Sym.st_size_off Elf32_Sym.st_size_w)
+    { name := sym32_get_name_idx (BitVec.ofNat 32 (fld c.enc rec Elf32_Sym.st_name_off Elf32_Sym.st_name_w))
+      value := sym32_get_value (BitVec.ofNat 32 (fld c.enc rec Elf32_Sym.st_value_off Elf32_Sym.st_value_w))
+      size := sym32_get_size (BitVec.ofNat 32 (fld c.enc rec Elf32_Sym.st_size_off Elf32_Sym.st_size_w))
       info := BitVec.ofNat 8 (fld c.enc rec Elf32_Sym.st_info_off Elf32_Sym.st_info_w)
-      other := BitVec.ofNat 8 (fld c.enc rec Elf32_Sym.st_other_off Elf32_Sym.st_other_w)
-      shndx := BitVec.ofNat 16 (fld c.enc rec Elf32_Sym.st_shndx_off Elf32_Sym.st_shndx_w) }
+      other := sym32_get_other (BitVec.ofNat 8 (fld c.enc rec Elf32_Sym.st_other_off Elf32_Sym.st_other_w))
+      shndx := sym32_get_shndx (BitVec.ofNat 16 (fld c.enc rec Elf32_Sym.st_shndx_off Elf32_Sym.st_shndx_w)) }
   | .c64 =>
-    { name := BitVec.ofNat 32 (fld c.enc rec Elf64_Sym.st_name_off Elf64_Sym.st_name_w)
-      value := BitVec.ofNat 64 (fld c.enc rec Elf64_Sym.st_value_off Elf64_Sym.st_value_w)
-      size := BitVec.ofNat 64 (fld c.enc rec Elf64_Sym.st_size_off Elf64_Sym.st_size_w)
+    { name := sym64_get_name_idx (BitVec.ofNat 32 (fld c.enc rec Elf64_Sym.st_name_off Elf64_Sym.st_name_w))
+      value := sym64_get_value (BitVec.ofNat 64 (fld c.enc rec Elf64_Sym.st_value_off Elf64_Sym.st_value_w))
+      size := sym64_get_size (BitVec.ofNat 64 (fld c.enc rec Elf64_Sym.st_size_off Elf64_Sym.st_size_w))
       info := BitVec.ofNat 8 (fld c.enc rec Elf64_Sym.st_info_off Elf64_Sym.st_info_w)
-      other := BitVec.ofNat 8 (fld c.enc rec Elf64_Sym.st_other_off Elf64_Sym.st_other_w)
-      shndx := BitVec.ofNat 16 (fld c.enc rec Elf64_Sym.st_shndx_off Elf64_Sym.st_shndx_w) }
+      other := sym64_get_other (BitVec.ofNat 8 (fld c.enc rec Elf64_Sym.st_other_off Elf64_Sym.st_other_w))
+      shndx := sym64_get_shndx (BitVec.ofNat 16 (fld c.enc rec Elf64_Sym.st_shndx_off Elf64_Sym.st_shndx_w)) }
 
 /-- `T entry; entry.FIELD = convertor(FIELD)…` : the bytes of the host struct -/
 def entryBytes (c : Cfg) (name : BitVec 32) (value size : BitVec 64) (info other : BitVec 8)
@@ -142,54 +144,90 @@ def entryBytes (c : Cfg) (name : BitVec 32) (value size : BitVec 64) (info other
 
 /-! ### count, access by index -/
 
-/-- `get_symbols_num()` -/
-def symbolsNum (t : SymTab) : M (BitVec 64) :=
-  let minSz := match t.cfg.cls with | .c32 => sym_num_min32 | .c64 => sym_num_min64
+/-- `elf_file.get_class()` of an object of class `c` -/
+def classByte (c : Cls) : BitVec 8 := BitVec.ofNat 8 (match c with | .c32 => ELFCLASS32 | .c64 => ELFCLASS64)
+
+/-- `elf_file.get_class()` as the byte the generated class tests compare with -/
+def clsByte (c : Cls) : BitVec 8 :=
+  match c with
+  | .c32 => BitVec.ofNat 8 ELFCLASS32
+  | .c64 => BitVec.ofNat 8 ELFCLASS64
+
+/-- the class of the `T` in `generic_*<T>` that a class test `elf_file.get_class() == ELFCLASS32` with
+    outcome `is32` selects -/
+def clsOf (is32 : Bool) : Cls := if is32 then .c32 else .c64
+
+/-- `get_symbols_num()` after `minimum_symbol_size` was chosen -/
+def symbolsNumWith (t : SymTab) (minSz : BitVec 64) : M (BitVec 64) :=
   if sym_num_cond t.sym.entSize minSz t.sym.size t.sym.streamSize then
     if t.sym.entSize = 0 then throw (.divZero "get_symbols_num")
     else pure (sym_num_div t.sym.size t.sym.entSize)
   else pure 0
 
+/-- `get_symbols_num()` : `switch ( elf_file.get_class() )` selects the label group by the generated
+    comparisons (`sym_num_class`: 0 = `case ELFCLASS32`, 1 = `case ELFCLASS64`, else `default: return nRet`) -/
+def symbolsNum (t : SymTab) : M (BitVec 64) :=
+  match sym_num_class (classByte t.cfg.cls) with
+  | 0 => symbolsNumWith t sym_num_min32
+  | 1 => symbolsNumWith t sym_num_min64
+  | _ => pure 0
+
 /-- the `index < get_symbols_num()` operand (not evaluated when the data pointer is null) -/
 def guardNum (t : SymTab) (data : Option Bytes) : M (BitVec 64) :=
   if data.isNone then pure 0 else t.symbolsNum
 
-def attrsOf (t : SymTab) (r : RawSym) : Attrs :=
+def attrsOfT (is32 : Bool) (r : RawSym) : Attrs :=
   { value := r.value, size := r.size,
-    bind := if t.c32 then sym32_get_bind r.info else sym64_get_bind r.info,
-    typ := if t.c32 then sym32_get_type r.info else sym64_get_type r.info,
+    bind := if is32 then sym32_get_bind r.info else sym64_get_bind r.info,
+    typ := if is32 then sym32_get_type r.info else sym64_get_type r.info,
     shndx := r.shndx, other := r.other }
 
-/-- `generic_get_symbol<T>(index, name, value, size, bind, type, section_index, other)`;
-    `(str, a)` are the current contents of the out-parameters. -/
-def getSymbol (t : SymTab) (index : BitVec 64) (str : Bytes) (a : Attrs) : M (Bool × Bytes × Attrs) :=
+def attrsOf (t : SymTab) (r : RawSym) : Attrs := attrsOfT t.c32 r
+
+/-- `generic_get_symbol<T>(index, name, value, size, bind, type, section_index, other)` with `T = Elf32_Sym` iff
+    `is32`; `(str, a)` are the current contents of the out-parameters. -/
+def getSymbolT (is32 : Bool) (t : SymTab) (index : BitVec 64) (str : Bytes) (a : Attrs) : M (Bool × Bytes × Attrs) :=
   let data := secData t.sym
   (t.guardNum data) >>= fun n =>
-  if (if t.c32 then sym32_get_guard data.isNone index n else sym64_get_guard data.isNone index n) then
-    let off := if t.c32 then sym32_get_off index t.sym.entSize else sym64_get_off index t.sym.entSize
-    (rdRange "get_symbol/pSym" data off.toNat (symSizeOf t.cfg.cls)) >>= fun rec =>
-    let r := decodeRaw t.cfg rec
+  if (if is32 then sym32_get_guard data.isNone index n else sym64_get_guard data.isNone index n) then
+    let off := if is32 then sym32_get_off index t.sym.entSize else sym64_get_off index t.sym.entSize
+    (rdRange "get_symbol/pSym" data off.toNat (symSizeOf (clsOf is32))) >>= fun rec =>
+    let r := decodeRaw ⟨clsOf is32, t.cfg.enc⟩ rec
     (getString t.str r.name) >>= fun pStr =>
-    pure (true, pStr.getD str, t.attrsOf r)
+    let nameOk := if is32 then sym32_get_name_ok pStr.isNone else sym64_get_name_ok pStr.isNone
+    pure (true, if nameOk then pStr.getD str else str, attrsOfT is32 r)
   else pure (false, str, a)
+
+/-- `get_symbol(index, name, value, size, bind, type, section_index, other)` : the (generated) class test
+    chooses the instantiation of `generic_get_symbol<T>` -/
+def getSymbol (t : SymTab) (index : BitVec 64) (str : Bytes) (a : Attrs) : M (Bool × Bytes × Attrs) :=
+  getSymbolT (sym_get_is32 (clsByte t.cfg.cls)) t index str a
 
 /-! ### adding -/
 
-/-- `generic_add_symbol<T>` -/
-def genericAddSymbol (t : SymTab) (name : BitVec 32) (value size : BitVec 64) (info other : BitVec 8)
+/-- `generic_add_symbol<T>` with `T = Elf32_Sym` iff `is32` (the outcome of the caller's
+    `elf_file.get_class() == ELFCLASS32`); the convertor is that of the file -/
+def genericAddSymbolT (is32 : Bool) (t : SymTab) (name : BitVec 32) (value size : BitVec 64) (info other : BitVec 8)
     (shndx : BitVec 16) : M (SymTab × BitVec 32) :=
-  let e := entryBytes t.cfg name value size info other shndx
-  let len := if t.c32 then sym32_add_len else sym64_add_len
+  let e := entryBytes ⟨if is32 then .c32 else .c64, t.cfg.enc⟩ name value size info other shndx
+  let len := if is32 then sym32_add_len else sym64_add_len
   (rdRange "add_symbol/entry" (some e) 0 len.toNat) >>= fun src =>
   (t.sym.appendData src) >>= fun s =>
-  pure ({ t with sym := s }, if t.c32 then sym32_add_ret s.size else sym64_add_ret s.size)
+  pure ({ t with sym := s }, if is32 then sym32_add_ret s.size else sym64_add_ret s.size)
 
-/-- `add_symbol(name, value, size, info, other, shndx)` : seeds the null symbol first -/
+/-- `generic_add_symbol<T>` for the `T` of the file's class -/
+def genericAddSymbol (t : SymTab) (name : BitVec 32) (value size : BitVec 64) (info other : BitVec 8)
+    (shndx : BitVec 16) : M (SymTab × BitVec 32) :=
+  genericAddSymbolT t.c32 t name value size info other shndx
+
+/-- `add_symbol(name, value, size, info, other, shndx)` : seeds the null symbol first; both calls of
+    `generic_add_symbol<T>` choose `T` by their own (generated) class test -/
 def addSymbol (t : SymTab) (name : BitVec 32) (value size : BitVec 64) (info other : BitVec 8)
     (shndx : BitVec 16) : M (SymTab × BitVec 32) :=
-  (if sym_add_seed_cond t.sym.size then (t.genericAddSymbol 0 0 0 0 0 0) >>= fun (t', _) => pure t'
+  (if sym_add_seed_cond t.sym.size then
+     (genericAddSymbolT (sym_add_seed_is32 (clsByte t.cfg.cls)) t 0 0 0 0 0 0) >>= fun (t', _) => pure t'
    else pure t) >>= fun t1 =>
-  t1.genericAddSymbol name value size info other shndx
+  genericAddSymbolT (sym_add_is32 (clsByte t1.cfg.cls)) t1 name value size info other shndx
 
 /-- `add_symbol(name, value, size, bind, type, other, shndx)` -/
 def addSymbolBT (t : SymTab) (name : BitVec 32) (value size : BitVec 64) (bind typ other : BitVec 8)
@@ -226,7 +264,7 @@ def sysvLoop (t : SymTab) (data : Option Bytes) (name : Bytes) (nbucket nchain :
       | 0 => throw (.fuel "hash_lookup")
       | k + 1 =>
         (rd32 "hash_lookup/chain" t.cfg.enc data (sysv_chain_off nbucket y).toNat) >>= fun y' =>
-        (t.getSymbol (y'.setWidth 64) str a) >>= fun r =>
+        (t.getSymbol (sysv_sym_index_walk y') str a) >>= fun r =>
         sysvLoop t data name nbucket nchain k y' r.2.1 r.2.2
     else pure (str, a)
 
@@ -235,70 +273,83 @@ def sysvLoop (t : SymTab) (data : Option Bytes) (name : Bytes) (nbucket nchain :
     `y < nchain`), which the model reports as `Fault.fuel`. -/
 def hashLookup (t : SymTab) (h : SecBuf) (name : Bytes) (a : Attrs) : M (Bool × Attrs) :=
   let data := secData h
-  (rd32 "hash_lookup/nbucket" t.cfg.enc data 0) >>= fun nbucket =>
+  (rd32 "hash_lookup/nbucket" t.cfg.enc data sysv_nbucket_off.toNat) >>= fun nbucket =>
   (rd32 "hash_lookup/nchain" t.cfg.enc data sysv_nchain_off.toNat) >>= fun nchain =>
   let val := elf_hash (cName name)
   if nbucket = 0 then throw (.divZero "hash_lookup/nbucket") else
   (rd32 "hash_lookup/bucket" t.cfg.enc data (sysv_bucket_off val nbucket).toNat) >>= fun y =>
-  (t.getSymbol (y.setWidth 64) [] a) >>= fun r =>
-  if !r.1 then pure (false, a) else     -- fix 09-hash-lookup-empty-name: no symbol at the bucket head
+  (t.getSymbol (sysv_sym_index y) [] a) >>= fun r =>
+  if sysv_head_missing r.1 then pure (false, a) else     -- fix 09-hash-lookup-empty-name: no symbol at the bucket head
   (sysvLoop t data name nbucket nchain (nchain.toNat + 1) y r.2.1 r.2.2) >>= fun st =>
   pure (st.1 == name, st.2)
 
 /-- the `while (true)` loop of `gnu_hash_lookup`; `sn` is `symname` (declared outside the loop) -/
-def gnuLoop (t : SymTab) (data : Option Bytes) (name : Bytes) (hash symoffset : BitVec 32)
+def gnuLoopT (is32 : Bool) (t : SymTab) (data : Option Bytes) (name : Bytes) (hash symoffset : BitVec 32)
     (chainsBase : Nat) : Nat → BitVec 32 → BitVec 32 → Bytes → Attrs → M (Bool × Attrs)
   | 0, _, _, _, _ => throw (.fuel "gnu_hash_lookup")
   | k + 1, ci, ch, sn, a =>
-    let hm := if t.c32 then gnu32_hash_match ch hash else gnu64_hash_match ch hash
-    (if hm then t.getSymbol (if t.c32 then gnu32_sym_index ci symoffset else gnu64_sym_index ci symoffset) sn a
+    if !(if is32 then gnu32_loop_forever else gnu64_loop_forever) then pure (false, a) else
+    let hm := if is32 then gnu32_hash_match ch hash else gnu64_hash_match ch hash
+    (if hm then t.getSymbol (if is32 then gnu32_sym_index ci symoffset else gnu64_sym_index ci symoffset) sn a
      else pure (false, sn, a)) >>= fun r =>
-    if hm && r.1 && (name == r.2.1) then pure (true, r.2.2) else
-    if (if t.c32 then gnu32_chain_end ch else gnu64_chain_end ch) then pure (false, r.2.2) else
-    let ci' := ci + 1
-    (rd32 "gnu_hash_lookup/chain" t.cfg.enc data (chainsBase + ci'.toNat * 4)) >>= fun ch' =>
-    gnuLoop t data name hash symoffset chainsBase k ci' ch' r.2.1 r.2.2
+    if (if is32 then gnu32_name_match_gate ch hash r.1 (name == r.2.1)
+        else gnu64_name_match_gate ch hash r.1 (name == r.2.1)) then pure (true, r.2.2) else
+    if (if is32 then gnu32_chain_end ch else gnu64_chain_end ch) then pure (false, r.2.2) else
+    let ci' := if is32 then gnu32_chain_next ci else gnu64_chain_next ci
+    (rd32 "gnu_hash_lookup/chain" t.cfg.enc data
+      (chainsBase + (if is32 then gnu32_chain_elem_off_walk ci' else gnu64_chain_elem_off_walk ci').toNat)) >>= fun ch' =>
+    gnuLoopT is32 t data name hash symoffset chainsBase k ci' ch' r.2.1 r.2.2
 
-/-- `gnu_hash_lookup<T>` (`T = uint32_t` for ELF32, `uint64_t` for ELF64).  The chain walk only
+/-- `gnu_hash_lookup<T>` (`T = uint32_t` iff `is32`, else `uint64_t`).  The chain walk only
     moves forward through the buffer, so `length + 1` steps of fuel are never used up. -/
-def gnuLookup (t : SymTab) (h : SecBuf) (name : Bytes) (a : Attrs) : M (Bool × Attrs) :=
+def gnuLookupT (is32 : Bool) (t : SymTab) (h : SecBuf) (name : Bytes) (a : Attrs) : M (Bool × Attrs) :=
   let data := secData h
   let e := t.cfg.enc
-  (rd32 "gnu_hash_lookup/nbuckets" e data 0) >>= fun nbuckets =>
-  (rd32 "gnu_hash_lookup/symoffset" e data 4) >>= fun symoffset =>
-  (rd32 "gnu_hash_lookup/bloom_size" e data 8) >>= fun bloomSize =>
-  (rd32 "gnu_hash_lookup/bloom_shift" e data 12) >>= fun bloomShift =>
+  (rd32 "gnu_hash_lookup/nbuckets" e data (if is32 then gnu32_nbuckets_off else gnu64_nbuckets_off).toNat) >>= fun nbuckets =>
+  (rd32 "gnu_hash_lookup/symoffset" e data (if is32 then gnu32_symoffset_off else gnu64_symoffset_off).toNat) >>= fun symoffset =>
+  (rd32 "gnu_hash_lookup/bloom_size" e data (if is32 then gnu32_bloom_size_off else gnu64_bloom_size_off).toNat) >>= fun bloomSize =>
+  (rd32 "gnu_hash_lookup/bloom_shift" e data (if is32 then gnu32_bloom_shift_off else gnu64_bloom_shift_off).toNat) >>= fun bloomShift =>
   let hash := elf_gnu_hash (cName name)
   if bloomSize = 0 then throw (.divZero "gnu_hash_lookup/bloom_size") else
-  let bloomBase := (if t.c32 then gnu32_bloom_off else gnu64_bloom_off).toNat
-  (if t.c32 then
-     (rd32 "gnu_hash_lookup/bloom" e data (bloomBase + (gnu32_bloom_index hash bloomSize).toNat * 4)) >>= fun w =>
+  let bloomBase := (if is32 then gnu32_bloom_off else gnu64_bloom_off).toNat
+  (if is32 then
+     (rd32 "gnu_hash_lookup/bloom" e data (bloomBase + (gnu32_bloom_elem_off (gnu32_bloom_index hash bloomSize)).toNat)) >>= fun w =>
      let bits := gnu32_bloom_bits hash bloomShift
-     pure ((w &&& bits) == bits)
+     pure (!(gnu32_bloom_miss w bits))
    else
-     (rd64 "gnu_hash_lookup/bloom" e data (bloomBase + (gnu64_bloom_index hash bloomSize).toNat * 8)) >>= fun w =>
+     (rd64 "gnu_hash_lookup/bloom" e data (bloomBase + (gnu64_bloom_elem_off (gnu64_bloom_index hash bloomSize)).toNat)) >>= fun w =>
      let bits := gnu64_bloom_bits hash bloomShift
-     pure ((w &&& bits) == bits)) >>= fun pass =>
+     pure (!(gnu64_bloom_miss w bits))) >>= fun pass =>
   if !pass then pure (false, a) else
   if nbuckets = 0 then throw (.divZero "gnu_hash_lookup/nbuckets") else
-  let bucket := if t.c32 then gnu32_bucket hash nbuckets else gnu64_bucket hash nbuckets
-  let bucketsBase := bloomBase + (if t.c32 then gnu32_buckets_off bloomSize else gnu64_buckets_off bloomSize).toNat
-  let chainsBase := bucketsBase + (if t.c32 then gnu32_chains_off nbuckets else gnu64_chains_off nbuckets).toNat
-  (rd32 "gnu_hash_lookup/bucket" e data (bucketsBase + bucket.toNat * 4)) >>= fun bv =>
-  if BitVec.ule symoffset bv then
-    let ci := bv - symoffset
-    (rd32 "gnu_hash_lookup/chain" e data (chainsBase + ci.toNat * 4)) >>= fun ch =>
-    gnuLoop t data name hash symoffset chainsBase ((data.getD []).length + 1) ci ch [] a
+  let bucket := if is32 then gnu32_bucket hash nbuckets else gnu64_bucket hash nbuckets
+  let bucketsBase := bloomBase + (if is32 then gnu32_buckets_off bloomSize else gnu64_buckets_off bloomSize).toNat
+  let chainsBase := bucketsBase + (if is32 then gnu32_chains_off nbuckets else gnu64_chains_off nbuckets).toNat
+  (rd32 "gnu_hash_lookup/bucket" e data
+    (bucketsBase + (if is32 then gnu32_bucket_elem_off bucket else gnu64_bucket_elem_off bucket).toNat)) >>= fun bv =>
+  if (if is32 then gnu32_bucket_ok bv symoffset else gnu64_bucket_ok bv symoffset) then
+    let ci := if is32 then gnu32_chain_start bv symoffset else gnu64_chain_start bv symoffset
+    (rd32 "gnu_hash_lookup/chain" e data
+      (chainsBase + (if is32 then gnu32_chain_elem_off ci else gnu64_chain_elem_off ci).toNat)) >>= fun ch =>
+    gnuLoopT is32 t data name hash symoffset chainsBase ((data.getD []).length + 1) ci ch [] a
   else pure (false, a)
+
+/-- the walk / `gnu_hash_lookup<T>` for the `T` of the file's class (what `get_symbol(name, …)` calls) -/
+def gnuLoop (t : SymTab) (data : Option Bytes) (name : Bytes) (hash symoffset : BitVec 32)
+    (chainsBase : Nat) (fuel : Nat) (ci ch : BitVec 32) (sn : Bytes) (a : Attrs) : M (Bool × Attrs) :=
+  gnuLoopT t.c32 t data name hash symoffset chainsBase fuel ci ch sn a
+
+def gnuLookup (t : SymTab) (h : SecBuf) (name : Bytes) (a : Attrs) : M (Bool × Attrs) :=
+  gnuLookupT t.c32 t h name a
 
 /-- the hash phase of `get_symbol(name, …)` -/
 def hashPhase (t : SymTab) (name : Bytes) (a : Attrs) : M (Bool × Attrs) :=
   match t.hash with
   | none => pure (false, a)
   | some h =>
-    (if h.stype == BitVec.ofNat 32 SHT_HASH then t.hashLookup h name a else pure (false, a)) >>= fun r1 =>
-    if h.stype == BitVec.ofNat 32 SHT_GNU_HASH || h.stype == BitVec.ofNat 32 DT_GNU_HASH then
-      t.gnuLookup h name r1.2
+    (if sym_byname_is_sysv h.stype then t.hashLookup h name a else pure (false, a)) >>= fun r1 =>
+    if sym_byname_is_gnu h.stype then
+      gnuLookupT (sym_byname_gnu_is32 (clsByte t.cfg.cls)) t h name r1.2
     else pure r1
 
 /-- the fallback `for ( i = 0; !ret && i < get_symbols_num(); i++ )` with a fresh `symbol_name`
@@ -307,29 +358,34 @@ def linearGo (t : SymTab) (name : Bytes) : Nat → BitVec 64 → Attrs → M (Bo
   | 0, _, a => pure (false, a)
   | k + 1, i, a =>
     (t.getSymbol i [] a) >>= fun r =>
-    if r.1 && r.2.1 == name then pure (true, r.2.2) else linearGo t name k (i + 1) r.2.2
+    if sym_byname_hit r.1 (r.2.1 == name) then pure (true, r.2.2) else linearGo t name k (sym_byname_i_incr i) r.2.2
 
 /-- `get_symbol(name, value, size, bind, type, section_index, other)` -/
 def getByName (t : SymTab) (name : Bytes) (a : Attrs) : M (Bool × Attrs) :=
   (t.hashPhase name a) >>= fun r =>
-  if r.1 then pure r else
-  t.symbolsNum >>= fun n => linearGo t name n.toNat 0 r.2
+  if sym_byname_linear r.1 then
+    t.symbolsNum >>= fun n => linearGo t name n.toNat sym_byname_i_init r.2
+  else pure r
 
 /-! ### lookup by value -/
 
 /-- `generic_get_symbol_ptr<T>(i)` followed by `convertor( sym->st_value )`; `none` = nullptr -/
-def symPtrValue (t : SymTab) (i : BitVec 64) : M (Option (BitVec 64)) :=
+def symPtrValueT (is32 : Bool) (t : SymTab) (i : BitVec 64) : M (Option (BitVec 64)) :=
   let data := secData t.sym
   (t.guardNum data) >>= fun n =>
-  if (if t.c32 then sym32_ptr_guard data.isNone i n else sym64_ptr_guard data.isNone i n) then
-    if (if t.c32 then sym32_ptr_small t.sym.entSize else sym64_ptr_small t.sym.entSize) then pure none else
-    let off := if t.c32 then sym32_ptr_off i t.sym.entSize else sym64_ptr_off i t.sym.entSize
-    let (fo, fw) := match t.cfg.cls with
+  if (if is32 then sym32_ptr_guard data.isNone i n else sym64_ptr_guard data.isNone i n) then
+    if (if is32 then sym32_ptr_small t.sym.entSize else sym64_ptr_small t.sym.entSize) then pure none else
+    let off := if is32 then sym32_ptr_off i t.sym.entSize else sym64_ptr_off i t.sym.entSize
+    let (fo, fw) := match clsOf is32 with
       | .c32 => (Elf32_Sym.st_value_off, Elf32_Sym.st_value_w)
       | .c64 => (Elf64_Sym.st_value_off, Elf64_Sym.st_value_w)
     (rdRange "search_symbols/st_value" data (off.toNat + fo) fw) >>= fun bs =>
     pure (some (BitVec.ofNat 64 (rdField t.cfg.enc bs)))
   else pure none
+
+/-- the instantiation `get_symbol(value, …)` chooses by its (generated) class test -/
+def symPtrValue (t : SymTab) (i : BitVec 64) : M (Option (BitVec 64)) :=
+  symPtrValueT (sym_byvalue_is32 (clsByte t.cfg.cls)) t i
 
 /-- `generic_search_symbols<T>` with the `st_value == value` predicate -/
 def searchGo (t : SymTab) (value : BitVec 64) : Nat → BitVec 64 → M (Option (BitVec 64))
